@@ -1,4 +1,4 @@
-SPECIFICATION Spec
+SPECIFICATION LiveSpec
 CONSTANTS
   p1 = p1
   p2 = p2
@@ -6,14 +6,11 @@ CONSTANTS
   Peers <- TwoPeers
   Ported <- TwoPeers
   TTL = 12
-  MaxTime = 14
+  MaxTime = 8
   Lossy = TRUE
   KeepLater = FALSE
   DropUntil = 1000
   Async <- NoPeers
 INVARIANT TypeOK
-INVARIANT RemoveSaysGoodbye
-INVARIANT GoodbyeHonoured
-INVARIANT NeverPartial
-INVARIANT NothingForeign
+PROPERTY EventuallyKnown
 CHECK_DEADLOCK FALSE
